@@ -45,6 +45,8 @@ def atom_of(test):
             base = ('atom', unparse(left, 0))
             pos = (isinstance(op, ast.Is)) == bool(right.value)
             return base if pos else neg(base)
+        if isinstance(op, ast.NotIn):
+            return neg(('atom', unparse(left, 0) + ' in ' + unparse(right, 0)))
         if isinstance(op, ast.NotEq):
             return neg(('atom', unparse(left, 0) + ' == ' + unparse(right, 0)))
         if isinstance(op, ast.GtE):
